@@ -37,6 +37,11 @@ type (
 	}
 	EIndex struct{ X, I Expr }
 	ESlice struct{ X, Lo, Hi Expr }
+	// ESetOf: `setof k T :: body` -- the set {k | body} as an array T -> Bool (comprehension)
+	ESetOf struct {
+		Var  QVar
+		Body Expr
+	}
 	EQuant struct {
 		Forall bool
 		Vars   []QVar
@@ -70,6 +75,7 @@ func (EField) exprNode()  {}
 func (EIndex) exprNode()  {}
 func (ESlice) exprNode()  {}
 func (EQuant) exprNode()  {}
+func (ESetOf) exprNode()  {}
 func (EIte) exprNode()    {}
 func (ELet) exprNode()    {}
 func (EMethod) exprNode() {}
@@ -312,6 +318,20 @@ func (p *parser) primary() Expr {
 			return EBool{false}
 		case "nil":
 			return ENil{}
+		case "setof":
+			v := p.next()
+			if v.k != "id" {
+				panic(fmt.Errorf("bad setof binder in %q", p.src))
+			}
+			ty := ""
+			for !(p.peek().k == "op" && p.peek().v == "::") {
+				if p.peek().k == "eof" {
+					panic(fmt.Errorf("unterminated setof in %q", p.src))
+				}
+				ty += p.next().v
+			}
+			p.expectOp("::")
+			return ESetOf{QVar{v.v, ty}, p.expr(0)}
 		case "forall", "exists":
 			var vars []QVar
 			var groups [][]tok
@@ -436,6 +456,7 @@ type Contract struct {
 	Records  []*Clause // `records #g := e`: ghost bookkeeping applied at call sites only
 	Sets     []*Clause // ghost-after hooks: `set x.#f := e`
 	Modifies []string
+	Inline   bool // callers use the body, not the contract (the contract is only checked against the body)
 	HasMod   bool
 	Body     Expr // pred/fun/axiom
 	BodyText string
@@ -454,7 +475,7 @@ type Contract struct {
 }
 
 var headRe = regexp.MustCompile(`^(func|trusted func|loop|pred|fun|lemma|axiom|ghost var|ghost field|chan|guarded|sort|assume-call|callsite|implements|immutable|ghost-after|global-const)\s+(.*)$`)
-var clauseRe = regexp.MustCompile(`^(requires|ensures|invariant|modifies|records|set|reveals|nopanic|maypanic|pure|opaque|induction|note)\b\s*(.*)$`)
+var clauseRe = regexp.MustCompile(`^(requires|ensures|invariant|modifies|records|set|reveals|nopanic|maypanic|pure|opaque|inline|induction|note)\b\s*(.*)$`)
 
 // splitParams splits "a int, b []T" at top-level commas into name/type pairs.
 func splitParams(s string) []Param {
@@ -750,6 +771,8 @@ func ParseContractFile(path, pkgPath string) ([]*Contract, error) {
 				cur.MayPanic = true
 			case "pure":
 				cur.Pure = true
+			case "inline":
+				cur.Inline = true
 			case "opaque":
 				cur.Opaque = true
 			case "induction":
